@@ -20,6 +20,7 @@ package cx
 import (
 	"fmt"
 	"sort"
+	"strings"
 	"sync"
 	"time"
 
@@ -43,6 +44,8 @@ func runToggleHistory(startDry bool, h string, kept, dropped []string) (sig, wha
 	nk, nd := 0, 0
 	wouldKeep := map[string]bool{}
 	pending := map[string]bool{} // traces in the buffer
+	decidedLive := 0
+	_ = decidedLive
 	cursor := 0
 	const client = 7
 	for step, c := range h {
@@ -74,9 +77,36 @@ func runToggleHistory(startDry bool, h string, kept, dropped []string) (sig, wha
 		log := f.Tx.Log(cursor)
 		cursor += len(log)
 		if !dry {
+			// outside dry run (judged for C04/C02): a trace the sampler keeps is forwarded with client rate x sampler
+			// rate, that product as meta.refinery.final_sample_rate, and no dry-run marker; a dropped one is not forwarded
+			seen := map[string]int{}
+			for _, s := range log {
+				seen[s.TraceID]++
+				wk, known := wouldKeep[s.TraceID]
+				if !known {
+					continue
+				}
+				where := fmt.Sprintf("step %d of [%s] (DryRun at start %v, now off): span %s of trace %s (sampler would %s it, rate 2)", step, h, startDry, s.SpanID, s.TraceID, kd(wk))
+				if !wk {
+					return "c04:toggle:dropped-trace-forwarded-outside-dry-run", where + " was forwarded", decidedDry
+				}
+				if s.SampleRate != 2*client {
+					return "c04:toggle:sample-rate-not-client-times-trace-rate", fmt.Sprintf("%s was forwarded with sample rate %d, expected %d x 2", where, s.SampleRate, client), decidedDry
+				}
+				if v, ok := s.Fields["meta.refinery.final_sample_rate"]; !ok || fmt.Sprint(v) != fmt.Sprint(2*client) {
+					return "c04:toggle:final-sample-rate-missing-or-wrong", fmt.Sprintf("%s carries meta.refinery.final_sample_rate=%v, expected %d", where, v, 2*client), decidedDry
+				}
+				if _, present := s.Fields[config.DryRunFieldName]; present {
+					return "c04:toggle:dry-run-marker-outside-dry-run", where + " carries the dry-run marker", decidedDry
+				}
+			}
 			for id := range pending {
 				if !still[id] {
 					delete(pending, id)
+					decidedLive++
+					if wouldKeep[id] && seen[id] != 1 {
+						return "c04:toggle:kept-trace-not-forwarded-exactly-once", fmt.Sprintf("step %d of [%s] (DryRun at start %v, now off): kept trace %s was handed to the transmission %d times", step, h, startDry, id, seen[id]), decidedDry
+					}
 				}
 			}
 			continue
@@ -116,7 +146,13 @@ func runToggleHistory(startDry bool, h string, kept, dropped []string) (sig, wha
 }
 
 // RunDryToggle enumerates the histories and reports the first failing history (enumeration order) per signature.
-func RunDryToggle(r *ev.Run) {
+func RunDryToggle(r *ev.Run) { runToggle(r, "c05:") }
+
+// RunLiveToggle is the same enumeration judged for the periods OUTSIDE dry run (C04: sample rates compose, no
+// dry-run stamping once DryRun has been reloaded to off).
+func RunLiveToggle(r *ev.Run) { runToggle(r, "c04:") }
+
+func runToggle(r *ev.Run, want string) {
 	depth := ev.Pick(r, 5, 6)
 	k, d := Bool(true), Bool(false)
 	ids := PickIDs(1, det(2), []Want{{0, k}, {0, k}, {0, d}, {0, d}})
@@ -167,7 +203,7 @@ func RunDryToggle(r *ev.Run) {
 				sig, what, n := runToggleHistory(j.start, j.h, kept, dropped)
 				mu.Lock()
 				decided += int64(n)
-				if sig != "" {
+				if sig != "" && strings.HasPrefix(sig, want) {
 					if p, ok := first[sig]; !ok || j.ord < p.ord {
 						first[sig] = toggleFail{sig, what, j.h, j.ord}
 					}
